@@ -277,3 +277,16 @@ def run(ctx, rep):
                             're:^self\\.last_consumed_offsets, %s\\.partition_id, Atomic::new\\(Vec::remove\\(.*\\.messages, 0\\)\\.offset\\)$' % re.escape(FRESH)],
     }}, skip_self=False, cd=2)
 
+    # ------------------------------------------------------------ R20.g both send paths split a call into chunks that cover it
+    rep.rule('R20.g', 'the producer splits an oversized send call with chunks / chunks_mut (which yield the trailing partial chunk) on both paths, immediate and buffered: chunks_exact* drops the last count %% batch_size messages of a call that still returns Ok', floor=2, analysis='A6 sibling operations')
+    for pfn in ('iggy::clients::producer::IggyProducer::send_immediately', 'iggy::clients::producer::IggyProducer::send_buffered'):
+        if not ctx.has(pfn):
+            rep.anchor_lost('R20.g', pfn)
+            continue
+        ops_ = set()
+        for d_ in ctx.facts.body_defs():
+            if (d_ == pfn or d_.startswith(pfn + '::{closure')) and '__CALLSITE' not in d_:
+                ops_ |= {c.name.split('::')[-1] for c in ctx.body(d_).calls if is_user_call(c) and 'chunks' in c.name.split('::')[-1]}
+        ok_ = bool(ops_) and ops_ <= {'chunks', 'chunks_mut'}
+        rep.ob('R20.g', pfn, 'chunking covers the whole call', ok_, None, ' '.join(sorted(ops_)) if ok_ else 'the call is split with %s: the trailing partial batch is never sent' % sorted(ops_))
+
